@@ -38,7 +38,9 @@ class C06(props.BaseProp):
             "insertion order; isolated nodes; nodes created only by edges), 0..2n+1 edges, directed/undirected x "
             "single/multi-edge, self-loops, parallel edges, two-block disconnected graphs; 35% of the directed graphs "
             "are forward-only (DAG-like) so that reachability is asymmetric; weighted (weights {1,2,3}) or hop-count x "
-            "wf_improved on/off; 3% hop-count graphs of 21-23 nodes (rayon path). Compared with the Coq model: build "
+            "wf_improved on/off; 3% hop-count graphs of 21-23 nodes (rayon path); 10% of the weighted cases use weights w/4 "
+            "(below 1, exact in binary64; decided by the definitional oracle alone, the model being over integer weights). "
+            "Compared with the Coq model: build "
             "outcome, call outcome, sorted name->value map (1e-9), flags 61 (heap tie choice unobservable), 62 (the "
             "model's distance vectors pass the verified checker check_dist for every source) and 63 (searched adjacency "
             "= transpose of the graph's adjacency). Oracle on the implementation: one entry per node and every value "
@@ -72,8 +74,14 @@ class C06(props.BaseProp):
                             seen.add((e[0], e[1]))
                             es.append(e)
                     edges = es
-            cases.append({"id": "c%d" % i, "spec": spec, "nodes": nodes, "edges": edges,
-                          "weighted": weighted, "wf": r.below(2) == 1})
+            c = {"id": "c%d" % i, "spec": spec, "nodes": nodes, "edges": edges,
+                 "weighted": weighted, "wf": r.below(2) == 1}
+            if weighted and not big and r.below(100) < 10:
+                # weights below 1 (w/4, exact in binary64): closeness may exceed 1; the Coq model is stated for
+                # integer weights, so these cases are decided by the definitional oracle alone
+                c["wdiv"] = 4
+                c["nomodel"] = True
+            cases.append(c)
         return cases
 
     def to_harness(self, c):
@@ -85,7 +93,7 @@ class C06(props.BaseProp):
 
     def case_json(self, c):
         return {"id": c["id"], "spec": list(c["spec"]), "nodes": c["nodes"], "edges": [list(e) for e in c["edges"]],
-                "weighted": bool(c["weighted"]), "wf": bool(c["wf"])}
+                "weighted": bool(c["weighted"]), "wf": bool(c["wf"]), "wdiv": c.get("wdiv", 1)}
 
     def case_from_json(self, j):
         c = cg.graph_from_json(j)
